@@ -6,6 +6,14 @@ miss=0
 for d in seeded/${1:-*}/; do
   id=$(basename $d); prop=${id%%-*}
   out=$(python3 tools/seedrun.py $d/patch.diff $prop 2>&1 | grep -E "^fired:|does not apply|refusing")
+  if grep -q '"neutralised_by"' $d/meta.json 2>/dev/null; then
+    # a later fix: made this change behaviour-preserving: every check must stay silent on it
+    case "$out" in
+      "fired: [] errors: []") echo "$id silent (neutralised, as expected)";;
+      *) echo "$id NEUTRALISED SEED RAISES AN ALARM: $out"; miss=$((miss+1));;
+    esac
+    continue
+  fi
   case "$out" in
     *"'$prop'"*" errors: []") echo "$id caught";;
     *) echo "$id NOT CAUGHT: $out"; miss=$((miss+1));;
